@@ -441,6 +441,63 @@ theorem submit_multi_final_once (ks : Keys) (id : Id) (w : WakerId) (r : Res)
 
 end futures
 
+/-! ## io_uring: (a) and (b) for every run under the kernel contract
+
+`RunOk` is what the environment has to respect: keys are fresh allocations, `jobDone` names a running job,
+and every `io_uring_enter` / asynchronous post honours `EnterOk` — the kernel posts CQEs only with the
+user_data of SQEs it consumed and has not finished yet, at most one final CQE each (assumption A-K: the
+io_uring ABI).  Under that contract the driver's own logic — overflow loop, `poll_entries`, the `completed`
+channel — keeps "exactly once, own result". -/
+
+/-- reachable ring states -/
+def RReachable (r : Ring) : Prop :=
+  ∃ (cap : Nat) (steps : List RStep), RunOk { sqCap := cap } steps ∧ r = Ring.run { sqCap := cap } steps
+
+theorem rreachable_inv {r : Ring} (h : RReachable r) : RInv r := by
+  obtain ⟨cap, steps, hok, rfl⟩ := h
+  exact RInv.run steps _ (RInv.init cap) hok
+
+/-- what `pop` hands out on io_uring is the one result the kernel (or the thread pool) produced for that key -/
+theorem iour_own_result {r : Ring} (h : RReachable r) (id : Id) (res : Res) (ks' : Keys)
+    (hp : r.keys.pop id = (ks', some res)) : r.keys.src id = [res] ∧ r.keys.fin id = [res] := by
+  have hk := (rreachable_inv h).k
+  cases hs : r.keys.slot id with
+  | free => rw [pop_not_ready _ _ (by intro x; rw [hs]; simp)] at hp; simp at hp
+  | pending w => rw [pop_not_ready _ _ (by intro x; rw [hs]; simp)] at hp; simp at hp
+  | ready r' =>
+    rw [pop_ready _ _ _ hs] at hp
+    simp only [Prod.mk.injEq, Option.some.injEq] at hp
+    obtain ⟨_, rfl⟩ := hp
+    exact hk.own_result hs
+
+theorem iour_exactly_once {r : Ring} (h : RReachable r) (id : Id) :
+    (r.keys.fin id).length ≤ 1 ∧ (r.keys.dlv id).length ≤ 1 ∧
+    (r.keys.dlv id = [] ∨ r.keys.dlv id = r.keys.fin id) ∧ r.keys.uaf = false := by
+  have hk := (rreachable_inv h).k
+  obtain ⟨a, b, c⟩ := hk.exactly_once id
+  exact ⟨a, b, c, hk.noUaf⟩
+
+/-- once completion queue and `completed` channel are drained, every result the kernel / the pool produced
+    sits in its slot or has been delivered -/
+theorem iour_finished_is_delivered {r : Ring} (h : RReachable r) (id : Id) (res : Res)
+    (hcq : r.cq = []) (hch : r.chan = []) (hdone : r.keys.src id = [res]) :
+    r.keys.slot id = .ready res ∨ r.keys.dlv id = [res] := by
+  have hk := (rreachable_inv h).k
+  refine hk.finished_is_delivered ?_ hdone
+  rw [hcq, hch]; rfl
+
+/-- an operation whose SQE is staged or which the kernel owns has a live, pending slot and no result yet;
+    the staged / kernel-owned operations are pairwise distinct -/
+theorem iour_owed_is_pending {r : Ring} (h : RReachable r) (id : Id) (ho : r.owed id ∨ id ∈ r.pool) :
+    r.keys.src id = [] ∧ r.keys.fin id = [] ∧ (∃ w, r.keys.slot id = .pending w) ∧
+    (r.kern ++ opsOf r.sq).Nodup := by
+  have hi := rreachable_inv h
+  have hsrc : r.keys.src id = [] := by
+    rcases ho with ho | ho
+    · exact (hi.k.qFresh id ho).1
+    · exact hi.k.poolFresh id ho
+  exact ⟨hsrc, (hi.k.fin_of_src_nil hsrc).1, hi.k.pending_of_fresh hsrc ho, hi.nod⟩
+
 /-! ## non-vacuity: the hypotheses are met by concrete, non-trivial runs -/
 
 section examples
@@ -481,6 +538,47 @@ example :
     let r0 : Ring := { sqCap := 1, sq := [.op 0], keys := ({} : Keys).alloc 0 }
     let (r1, res) := r0.pushOp 1 [⟨1, [⟨.key 0, .ok 3, false⟩]⟩]
     (res == .ok && r1.sq == [.op 1] && r1.keys.fin 0 == [.ok 3] && r1.drained.length == 1) = true := by decide
+
+/-- an io_uring run that respects the contract: two reads, a poll whose `io_uring_enter` takes both and the
+    notifier and completes the first, the second completing later on its own, a second poll, both popped -/
+def ringDemo : List RStep :=
+  [ .pushOp 0 [], .pushOp 1 [], .poll [] ⟨3, [⟨.key 0, .ok 3, false⟩]⟩, .kernel [⟨.key 1, .ok 4, false⟩],
+    .poll [] ⟨0, []⟩, .pop 0, .pop 1 ]
+
+theorem ringDemo_ok : RunOk { sqCap := 4 } ringDemo := by
+  have enterOk : ∀ (r : Ring) (n : Nat) (id : Id) (res : Res), id ∈ r.kern ++ opsOf (r.sq.take n) →
+      EnterOk r ⟨n, [⟨.key id, res, false⟩]⟩ := by
+    intro r n id res hm
+    refine ⟨?_, by simp [cqFinals]⟩
+    intro c hc id' hud
+    simp only [List.mem_singleton] at hc
+    subst hc
+    simp only [UserData.key.injEq] at hud
+    subst hud
+    exact hm
+  refine ⟨⟨⟨rfl, rfl, by unfold Ring.owed; decide, by decide⟩, trivial⟩, ?_⟩
+  refine ⟨⟨⟨rfl, rfl, by unfold Ring.owed; decide, by decide⟩, trivial⟩, ?_⟩
+  refine ⟨?_, ?_⟩
+  · -- first poll: nothing in the channel, the notifier is staged without overflow
+    unfold RStepOk PollOk
+    refine (if_pos (by decide)).mpr ?_
+    refine (if_pos (by decide)).mpr ⟨trivial, ?_⟩
+    intro r2 h2
+    have : r2 = (((({ sqCap := 4 } : Ring).step (.pushOp 0 [])).step (.pushOp 1 [])).pollBlocking.1.pushRaw .notifier []).1 := by
+      rw [h2]
+    subst this
+    exact enterOk _ 3 0 (.ok 3) (by decide)
+  refine ⟨enterOk _ 0 1 (.ok 4) (by decide), ?_⟩
+  refine ⟨?_, trivial, trivial, trivial⟩
+  unfold RStepOk PollOk
+  refine (if_pos (by decide)).mpr ?_
+  refine (if_neg (by decide)).mpr ⟨(by intro c hc; cases hc), (by decide)⟩
+
+/-- …and it ends with both operations delivered their own result, nothing owed, queues empty -/
+example :
+    let r := Ring.run { sqCap := 4 } ringDemo
+    (r.keys.dlv 0 == [.ok 3] && r.keys.dlv 1 == [.ok 4] && r.kern == [] && r.cq == [] && r.sq == []) = true := by
+  decide
 
 end examples
 
